@@ -50,7 +50,11 @@ ChunkPlan == {[arch |-> "chunkedit", role |-> op, val |-> p] : op \in ChunkOps, 
 \* two sibling fields of one structure edited together (count with offset, offset with size, ...): the model's
 \* adversary chooses count, offset and element size jointly; the single-field items above fix all but one
 PairSymbols == {"0", "rem+1", "orig-1", "orig+1", "u32max"}
-PairPlan == IF Thorough THEN {[arch |-> "pair", role |-> a, val |-> b] : a \in PairSymbols, b \in PairSymbols} ELSE {}
+\* quick: three symbols, applied by the harness to ALL field pairs of the small PTCH header / bsdiff40 block (sizes that
+\* must agree with each other: size_after with new_size, ctrl/diff sizes with the copy lengths) -- two cooperating edits
+PairSymbolsQ == {"orig-1", "orig+1", "rem+1"}
+PairPlan == LET S == IF Thorough THEN PairSymbols ELSE PairSymbolsQ
+            IN  {[arch |-> "pair", role |-> a, val |-> b] : a \in S, b \in S}
 
 HavocPlan == IF Thorough THEN {[arch |-> "havoc", role |-> "-", val |-> "1200"]} ELSE {}
 
